@@ -36,11 +36,23 @@ class IRProp(Prop):
     def make_case(self, seed):
         return irgen.Case(random.Random(seed), **self.genopts)
 
+    def corpus(self):
+        """Explicit cases kept under corpus/<id>/*.json: witnesses of known findings and earlier failures; they run first."""
+        import glob
+        import os
+        out = []
+        for f in sorted(glob.glob(os.path.join(C.VERIF, "corpus", self.id, "*.json"))):
+            out.append(("corpus:" + os.path.basename(f), irgen.Case.from_json(json.load(open(f)))))
+        return out
+
     def run_cases(self, tier, tag):
         out = []
+        if not tag.endswith("-boost"):
+            for name, case in self.corpus():
+                out.append((name, case, irgen.run_impl(case, observe=self.observe)))
         for sd in self.seeds(tier, tag):
             case = self.make_case(sd)
-            r = irgen.run_impl(case)
+            r = irgen.run_impl(case, observe=self.observe)
             out.append((sd, case, r))
         return out
 
@@ -76,6 +88,8 @@ class IRProp(Prop):
                 samples.append({"seed": sd, "mods": repr(case.mods)[:200], "agreed_state": impl[:300]})
         return dict(evaluations=len(lines), distinct_nontrivial=len(nontriv), samples=samples, disagreements=dis[:20], dist=dist)
 
+    observe = None      # optional callback(module, built, rec) evaluated when the modify cache is left (before intervals are re-joined)
+
     def spec(self, seed, case, r):
         """Violations of the property's text on one implementation run: list of dict(what, finding=None|id)."""
         return []
@@ -101,8 +115,8 @@ class IRProp(Prop):
         v = d.get("violation")
         if v and "seed" in v.get("input", {}):
             sd = v["input"]["seed"]
-            case = self.make_case(sd)
-            r = irgen.run_impl(case)
+            case = dict(self.corpus())[sd] if isinstance(sd, str) else self.make_case(sd)
+            r = irgen.run_impl(case, observe=self.observe)
             vs = self.spec(sd, case, r)
             print("replayed:", vs[:1] or "no violation on the current tree")
             return 1 if vs and not vs[0].get("finding") else 0
